@@ -247,6 +247,9 @@ def check(pid, tier, seed, replay=None):
                     infra(f"leanchecker rejected {m}: {(r.stdout + r.stderr)[-2000:]}")
             notes.append("leanchecker re-checked: " + ", ".join(modules))
 
+    for item in (spec.get("pre_checks") or (lambda: []))():
+        broken.append(item)
+
     # 2. harness from the current /repo tree
     ok, out = cargo_build()
     if not ok:
